@@ -13,8 +13,14 @@ package c12
 //      point (nothing in flight) a message of any class of a round entered so far (late / silent phase),
 //   T  fire a pending timeout although deliveries are pending (or another than the lowest one),
 //   L  deliver one withheld message / LA all withheld messages of one receiver (late delivery),
-//   HS withhold a validator's ProcessStart (messages reaching it meanwhile are buffered) / LS start it late.
-// B, T, L are offered at class boundaries only (the class of the default action differs from the
+//   HS withhold a validator's ProcessStart (messages reaching it meanwhile are buffered) / LS start it late,
+//   R  RE-DELIVER to one receiver one message it has already received (network duplicate, own echo, Byzantine
+//      resend): any message of any earlier or the current phase / round of its current height in the receiver's
+//      delivery record (monitor: proposals from the round's proposer, prevotes, precommits, own broadcasts included;
+//      messages of the next height that were buffered while it was still at the previous one count once it is there).
+//      On a correct machine every R is a no-op (the successor state is the state itself and the branch ends there);
+//      the counters redelivery_* report how many were taken and how many changed the receiver.
+// B, T, L, R are offered at class boundaries only (the class of the default action differs from the
 // class of the previous default action); W at every delivery. Every execution with <= k deviations
 // is run; states are cached on (machine states, network state, remaining budget).
 
@@ -64,6 +70,7 @@ const (
 	oStart
 	oHoldStart
 	oLateStart
+	oRedeliver
 )
 
 const clsStart = 300
@@ -85,6 +92,8 @@ func (c *cfg) label(o opt) string {
 		return fmt.Sprintf("W %s>%d", unpack(o.fl>>2), c.correct[o.fl&3])
 	case oLate:
 		return fmt.Sprintf("L %s>%d", unpack(o.fl>>2), c.correct[o.fl&3])
+	case oRedeliver:
+		return fmt.Sprintf("R %s>%d", unpack(o.fl>>2), c.correct[o.fl&3])
 	case oLateAll:
 		return fmt.Sprintf("LA >%d", c.correct[o.slot])
 	case oFire:
@@ -130,6 +139,8 @@ type searcher struct {
 	pruned      atomic.Int64
 	devsTaken   atomic.Int64
 	unstored    atomic.Int64
+	redeliv     atomic.Int64 // R branches taken
+	redelivEff  atomic.Int64 // R branches after which the receiver was in another state
 	abort       atomic.Bool
 	tasks       []task
 	outMu       sync.Mutex
@@ -497,6 +508,14 @@ func (s *searcher) devs(g *gstate, D opt, cls int16, buf []opt) []opt {
 			out = append(out, opt{t: oLateAll, slot: int8(i)})
 		}
 	}
+	for i := 0; i < nC; i++ {
+		if n := g.nd[i]; !n.decided {
+			c.ensureDups(n) // one replay of the real machine resolves all of them (no-ops become self-loops)
+			for _, pk := range n.redeliv {
+				out = append(out, opt{t: oRedeliver, fl: pk<<2 | uint32(i)})
+			}
+		}
+	}
 	return out
 }
 
@@ -542,6 +561,14 @@ func (s *searcher) apply(g *gstate, o opt, cls int16, trace []opt) {
 			}
 		}
 		s.step(g, int(o.fl&3), inMsg|o.fl>>2, trace)
+	case oRedeliver:
+		slot := int(o.fl & 3)
+		before := g.nd[slot]
+		s.step(g, slot, inMsg|o.fl>>2, trace)
+		s.redeliv.Add(1)
+		if g.nd[slot] != before {
+			s.redelivEff.Add(1)
+		}
 	case oLateAll:
 		var mine []uint32
 		for _, f := range g.wh {
